@@ -122,6 +122,8 @@ pub fn parse_own(name: &str, prefix: &str, ext: &str, roll: Roll) -> Option<(Str
 pub struct Cfg {
     pub template: String,
     pub dir: String,
+    /// the directory as `split_template` returns it (what the real builder hands to the worker)
+    pub raw_dir: String,
     pub prefix: String,
     pub ext: String,
     pub roll: Roll,
@@ -195,13 +197,19 @@ fn gen_plan(ch: &mut Choices, mode: &str, thorough: bool) -> Plan {
     };
     // templates: prefix / ext variety, including dotted prefixes and sibling-extending names
     let (template, siblings): (&str, &[&str]) = if c11 {
-        match ch.weighted(&[5, 2, 2, 2, 1, 1]) {
+        match ch.weighted(&[5, 2, 2, 2, 1, 1, 1, 1, 1, 1]) {
             0 => ("logs/app.log", &["app2", "ap", "app-old"][..]),
             1 => ("logs/app.log", &["app2", "app.web"][..]),
             2 => ("logs/my.app.txt", &["my", "my.app2"][..]),
             3 => ("app.log", &["app_b"][..]),
             4 => ("logs/deep/er/svc", &["svc2"][..]),
-            _ => ("logs/a.b.c.json", &["a", "a.b"][..]),
+            5 => ("logs/a.b.c.json", &["a", "a.b"][..]),
+            // relative to the current directory, spelled out; no extension and no directory; a hidden file;
+            // a directory given with a trailing separator component
+            6 => ("./app.log", &["app2"][..]),
+            7 => ("svc", &["svc_b", "sv"][..]),
+            8 => ("logs/.hidden", &[".hidden2"][..]),
+            _ => ("logs/./app.log", &["app2"][..]),
         }
     } else {
         match ch.weighted(&[6, 1]) {
@@ -210,9 +218,12 @@ fn gen_plan(ch: &mut Choices, mode: &str, thorough: bool) -> Plan {
         }
     };
     let (dir, prefix, ext) = emit_file::verif::split_template(std::path::Path::new(template)).expect("valid template");
+    // the worker gets the directory exactly as the builder derives it; the oracle works with the normalised form
+    let raw_dir = dir.clone();
     let dir = crate::simfs::norm(std::path::Path::new(&dir));
     let cfg = Cfg {
         template: template.to_string(),
+        raw_dir,
         dir,
         prefix,
         ext,
@@ -488,7 +499,7 @@ pub fn exec_plan(
             fs.clone(),
             clock.clone(),
             rng.clone(),
-            cfg.dir.clone(),
+            cfg.raw_dir.clone(),
             cfg.prefix.clone(),
             cfg.ext.clone(),
             cfg.roll,
@@ -864,6 +875,27 @@ pub fn exec_plan(
                     }
                 } else if outcome != "ok" {
                     active = None;
+                    if strict && outcome == "gave_up" {
+                        // no fault was injected anywhere in this execution: the filesystem works, so a batch that
+                        // cannot be written is the file set's own doing
+                        violate!(
+                            "C11",
+                            "batch_failed_without_fault",
+                            "a batch of {bytes} bytes went to no file although no filesystem fault was injected ({attempts} attempts; failing calls: {:?})",
+                            log.iter().filter(|o| !o.ok).map(|o| format!("{:?} {}", o.kind, o.path)).collect::<Vec<_>>()
+                        );
+                        let own_after = own_files(&fs);
+                        if own_after.len() > own_before.len().max(cfg.max_files) {
+                            violate!(
+                                "C11",
+                                "retention_exceeded",
+                                "after the (failed) batch the set holds {} files, max_files={}: {:?}",
+                                own_after.len(),
+                                cfg.max_files,
+                                own_after
+                            );
+                        }
+                    }
                 } else {
                     // ok after retries: whatever file was written last is active
                     if let Some(o) = log.iter().rev().find(|o| o.kind == OpKind::Write && o.ok) {
